@@ -8,13 +8,15 @@ import TonVerif.Drv.Common
 import TonVerif.Drv.Crc
 import TonVerif.Drv.Cell
 import TonVerif.Drv.Builder
+import TonVerif.Drv.Boc
 
 open TonVerif TonVerif.Drv
 
 def handlers : List (String → List String → Option String) := [
   Crc.handle?,
   Cell.handle?,
-  Builder.handle?
+  Builder.handle?,
+  Boc.handle?
 ]
 
 def handle (op : String) (args : List String) : String :=
